@@ -34,6 +34,9 @@ def binop(eng, op, a, b, s):
     a = eng.as_val(s, a) if not isinstance(a, SV) else a
     b = eng.as_val(s, b) if not isinstance(b, SV) else b
     num = ("int", "float", "bool")
+    if a.ty is None and b.ty is None and isinstance(op, ast.Div) and not eng.spec:
+        a = _narrow_num(eng, s, a)
+        b = _narrow_num(eng, s, b)
     if a.ty is None and b.ty in ("int", "float"):
         a = _narrow_num(eng, s, a)
     if b.ty is None and a.ty in ("int", "float"):
@@ -301,7 +304,7 @@ def getattr_(eng, v, name, s):
     # split on the classes that can hold this attribute
     classes = eng.reg.classes_with_field(name)
     if not classes:
-        meth = [c for c, k in eng.reg.classes.items() if k.pycls is not None and callable(getattr(k.pycls, name, None))]
+        meth = [c for c, k in eng.reg.classes.items() if k.pycls is not None and (callable(getattr(k.pycls, name, None)) or isinstance(getattr(k.pycls, name, None), property))]
         if meth:
             t = eng.static_ty(s, v, ["obj:" + c for c in meth])
             if t is not None:
@@ -697,8 +700,14 @@ def format_value(eng, s, val, spec, conv):
         return smt.fmt_of(v.t, z3.StringVal(spec))
     if v.ty == "str":
         return get_s(v.t)
+    if v.ty == "obj:Token":
+        # lark.Token is a str subclass: str(token) is its (immutable) text
+        return smt.TOKTEXT(smt.get_ref(v.t))
     if v.ty is None:
-        return z3.If(is_str(v.t), get_s(v.t), smt.str_of(v.t))
+        from .builtins_model import tokens_are_str
+        if not tokens_are_str(eng):
+            return z3.If(is_str(v.t), get_s(v.t), smt.str_of(v.t))
+        return z3.If(is_str(v.t), get_s(v.t), z3.If(eng.ty_cond(v, "obj:Token"), smt.TOKTEXT(smt.get_ref(v.t)), smt.str_of(v.t)))
     if v.ty in ("list", "tuple", "dict", "set") or v.ty.startswith("obj:"):
         # str() of a container depends on its contents: an opaque fresh string
         return smt.fresh("strof", smt.S)
